@@ -20,21 +20,18 @@ Definition trace_file {F} (t : list (effect F (list bentry) dpay)) : res bytes :
   | _ => Err EType
   end.
 
-(* the comment setter strips the newline the reader left on the title line *)
-Lemma start_title_nl t n fm b : t <> [] -> no_nl t ->
+(* the comment setter strips the newline the reader left on the title line (an empty title included) *)
+Lemma start_title_nl t n fm b : no_nl t ->
   w_start (mkwconf (Some (t ++ [NL])) n fm b) = w_start (mkwconf (Some t) n fm b).
 Proof.
-  intros Hne Hnl. unfold w_start. cbn [c_title c_box c_natoms c_fmt]. f_equal.
-  unfold set_comment. destruct t as [|x t']; [contradiction|]. cbn [app].
-  rewrite (drop_final_nl_no_nl (x :: t') Hnl).
-  change (x :: t' ++ [NL]) with ((x :: t') ++ [NL]).
-  unfold drop_final_nl. rewrite rev_app_distr. cbn [rev app]. rewrite Ascii.eqb_refl.
-  change (rev t' ++ [x]) with (rev (x :: t')). rewrite rev_involutive. reflexivity.
+  intros Hnl. unfold w_start. cbn [c_title c_box c_natoms c_fmt]. f_equal.
+  unfold set_comment. rewrite (drop_final_nl_no_nl t Hnl).
+  unfold drop_final_nl. rewrite rev_app_distr. cbn [rev app]. rewrite Ascii.eqb_refl, rev_involutive. reflexivity.
 Qed.
 
-Lemma write_title_nl t n fm b recs : t <> [] -> no_nl t ->
+Lemma write_title_nl t n fm b recs : no_nl t ->
   write_gro (mkwconf (Some (t ++ [NL])) n fm b) recs = write_gro (mkwconf (Some t) n fm b) recs.
-Proof. intros Hne Hnl. unfold write_gro, file_after. rewrite (start_title_nl t n fm b Hne Hnl). reflexivity. Qed.
+Proof. intros Hnl. unfold write_gro, file_after. rewrite (start_title_nl t n fm b Hnl). reflexivity. Qed.
 
 Section File.
   Context {E M I F : Type}.
@@ -53,7 +50,7 @@ Section File.
     cbn [to_grec g_anum g_resnum] in *. rewrite Hn in Ha. split; assumption.
   Qed.
 
-  (* The whole file.  Input title line t ++ "\n" (t non-empty), 3x3 box, every molecule of a complete species
+  (* The whole file.  Input title line t ++ "\n" (t possibly empty), 3x3 box, every molecule of a complete species
      maps, at least one line, all lines within the writer's domain of C13 (names of 1-5 characters, values
      that fit '{:8.3f}' / '{:8.4f}', all with or all without velocities), fewer than 10^9 atoms:
      the writer succeeds on the trace, and reading the file back gives the title line, the number of lines as
@@ -62,7 +59,7 @@ Section File.
   Theorem file_thm (f : F) t (box : list bentry) (sps : list (spstate E M)) (mols : list (minst I)) blocks vel :
     preflight sps = Ok tt ->
     Forall2 (maps_to mapmol sps) (selected sps mols) blocks ->
-    t <> [] -> no_nl t -> length box = 9 ->
+    no_nl t -> length box = 9 ->
     let ls := numbered (concat blocks) 1%Z in
     ls <> [] -> Forall (rec_ok 8 vel) (map to_grec ls) -> (Z.of_nat (length ls) < 1000000000)%Z ->
     exists file, trace_file (fst (extrapolate mapmol f (t ++ [NL]) box sps mols)) = Ok file /\
@@ -70,16 +67,16 @@ Section File.
        read_gro file = Ok (mkrresult (t ++ [NL]) (Z.of_nat (length ls))
                                      (map (expected_atom 3) (map to_grec ls)) (expected_box box))).
   Proof.
-    intros Hp Hb Hne Hnl Hbox ls Hls Hrec Hcnt.
+    intros Hp Hb Hnl Hbox ls Hls Hrec Hcnt.
     rewrite (trace_thm mapmol f (t ++ [NL]) box sps mols blocks Hp Hb). cbn [fst]. fold ls.
     unfold frame, trace_file. rewrite written_app, written_map. cbn [written]. rewrite app_nil_r.
-    rewrite (write_title_nl t None None (BoxMat box) _ Hne Hnl).
+    rewrite (write_title_nl t None None (BoxMat box) _ Hnl).
     assert (Hrun : run_ok (mkwconf (Some t) None None (BoxMat box)) 8 3 vel (map to_grec ls)).
     { constructor; cbn [c_title c_natoms c_fmt c_box].
       - reflexivity.
       - lia.
       - lia.
-      - unfold title_ok. cbn [c_title]. split; assumption.
+      - unfold title_ok. cbn [c_title]. exact Hnl.
       - exact Hbox.
       - unfold count_ok. cbn [c_natoms]. rewrite map_length. exact Hcnt.
       - exact Hrec.
